@@ -87,11 +87,10 @@ def run(ctx):
     d = ctx.spec_dir("vmm")
     tier = "Quick" if q else "Full"
     raw = os.path.join(ctx.work, "c07_cases_raw.ndjson")
-    ctx.model_check(d, "MCAddrSpace", "MCAddrSpace6" + tier, timeout=900, coverage=not q)
-    if not q:
-        ctx.model_check(d, "MCAddrSpace", "MCAddrSpace6Res4", timeout=900)
-    ctx.model_check(d, "MCAddrSpace", "MCAddrSpace64" + tier, env={"CASES": raw}, timeout=900, workers=1)
-    bugs = ["RoundUpWraps", "DecrementBeforeTest", "PageCountUnrounded"] if q else \
+    ctx.model_check(d, "MCAddrSpace", "MCAddrSpace6" + tier, timeout=900)
+    # (MCAddrSpace6Res4.cfg: plain reservations, sequences of 4, 312 639 states - measured once, too slow for the tier budget)
+    ctx.model_check(d, "MCAddrSpace", "MCAddrSpace64" + tier, env={"CASES": raw}, timeout=900, workers=4 if q else 8)
+    bugs = ["RoundUpWraps", "DecrementBeforeTest"] if q else \
            ["RoundUpWraps", "NoRoundUp", "RoundDown", "DecrementBeforeTest", "ReturnOldCursor", "PageCountUnrounded", "SameFrame"]
     for b in bugs:
         ctx.expect_model_violation(d, "MCAddrSpace", "MCAddrSpaceBug_" + b, timeout=300, workers=4)
@@ -105,11 +104,11 @@ def run(ctx):
     trg = os.path.join(ctx.work, "c07_trace_g.ndjson")
     vc.go(ctx, HARNESS, "TestVerifC07Cases", {"CASES": cases, "TRACE_OUT": trg})
     trt = os.path.join(ctx.work, "c07_trace_t.ndjson")
-    vc.go(ctx, HARNESS, "TestVerifC07Random", {"TRACE_OUT": trt, "NTRACES": 400 if q else 6000})
+    vc.go(ctx, HARNESS, "TestVerifC07Random", {"TRACE_OUT": trt, "NTRACES": 300 if q else 6000})
     vc.judge(ctx, "AddrSpaceTrace", "AddrSpaceTraceC07", [("G-behaviours", trg), ("T-random", trt)],
              to_replay, nontrivial, brief, parallel=4 if q else None)
     ctx.cov["exhaustive"] = not ctx.violations
-    ctx.cov["explanation"] = ("exhaustive = every behaviour of the TLC scope (all sequences of <= %d requests over the 19 boundary "
+    ctx.cov["explanation"] = ("exhaustive = every behaviour of the TLC scope (all sequences of <= %d requests over the 15 boundary "
                               "sizes x 3 request kinds, 64-bit words) was replayed verbatim on the real code; the 6-bit model "
                               "additionally covers every size exhaustively at the design level" % (2 if q else 3))
 
